@@ -732,7 +732,12 @@ pub struct Ctx {
     pub epfd: RawFd,
     pub opts: Opts,
     pub signal: Option<calloop::LoopSignal>,
+    pub callbacks: u32,
+    pub exhausted: bool,
 }
+
+/// callbacks per case after which the case is abandoned (generated histories stay far below)
+const CALLBACK_BUDGET: u32 = 4000;
 
 const K_PING: usize = 0;
 const K_CHAN: usize = 1;
@@ -793,6 +798,17 @@ impl Ctx {
     /// Common body of every user callback.
     fn on_cb(&mut self, id: SrcId, payload: Payload) -> (PostRet, TRet, Option<Instant>) {
         let sh = self.sh.clone();
+        self.callbacks += 1;
+        if self.callbacks > CALLBACK_BUDGET {
+            // a history that multiplies its own events (documented misuse such as enabling an enabled source from a
+            // repeating script duplicates registrations each round): stop feeding it, let the loop drain
+            if !self.exhausted {
+                self.exhausted = true;
+                self.poisoned = true;
+                sh.push(Ev::Exhausted);
+            }
+            return (PostRet::Remove, TRet::Drop, None);
+        }
         sh.push(Ev::Cb { src: id, payload, t_ns: sh.now_ns() });
         let prog = self.next_prog(id);
         self.depth += 1;
@@ -1751,6 +1767,8 @@ pub fn run_history(case: &HistCase, opts: Opts) -> Vec<Ev> {
         epfd,
         opts,
         signal: Some(el.get_signal()),
+        callbacks: 0,
+        exhausted: false,
     };
     // the two fds the polling crate registers for itself show up first
     ctx.snapshot(true);
